@@ -184,7 +184,11 @@ Section Machine.
     | Advance d => (mkSt (clock s + Z.max 0 d) (cfiles s) (bins s) (lastb s) (outowner s), None)
     | Run i dur => let '(s', o) := do_run s i dur false in (s', Some (i, o))
     | Interrupt i dur => let '(s', o) := do_run s i dur true in (s', Some (i, o))
-    | CodeOnly i => let '(s1, _, cg) := compile_code s i in (s1, Some (i, mkObs cg false OCodeOnly))
+    | CodeOnly i =>
+      match i_out i with
+      | Some _ => (s, Some (i, mkObs false false OCodeOnly))     (* --code -o X writes X only: the slot is untouched *)
+      | None => let '(s1, _, cg) := compile_code s i in (s1, Some (i, mkObs cg false OCodeOnly))
+      end
     end.
 
   Fixpoint exec (s : st) (h : list step) : list (inv * obs) :=
